@@ -46,7 +46,9 @@ fn depth_main(plan: &str, t: Tier) -> usize {
         ("NoGC", _) => 2,
         ("MarkCompact", Tier::Quick) | ("PageProtect", Tier::Quick) => 3,
         (_, Tier::Quick) => 4,
-        ("MarkCompact", Tier::Thorough) | ("PageProtect", Tier::Thorough) => 4,
+        // PageProtect maps and protects a page per object: depth 4 with bursts needs ~40 CPU-minutes
+        ("PageProtect", Tier::Thorough) => 3,
+        ("MarkCompact", Tier::Thorough) => 4,
         (_, Tier::Thorough) => 5,
     }
 }
